@@ -244,6 +244,10 @@ def check(case, log):
       continue
     if name in poisoned:
       continue
+    if blocking and name in P:
+      cur0 = _last_req(ix, name)
+      if cur0 is not None and cur0["op"] == "badop" and exc in ("OpError", "RuntimeError"):
+        continue      # the program's own failing operation: de-scheduled, as reported
     if name.startswith("T") and name[1:].isdigit() and not blocking:
       # a timer whose callback raised (scripted): the Timer task is de-scheduled like any task that raises
       fl = ix.fires.get(int(name[1:]), [])
@@ -351,7 +355,7 @@ def check(case, log):
         elif kind == "rfop":
           calls = ix.rfs.get((tid, pc), [])
           last_t = calls[-1][2] if calls else rtime
-          if calls and calls[-1][3] != "abort":
+          if calls and calls[-1][3] not in ("abort", "chain", "stale-phase"):
             fail("rf-result-lost", "%s: the return function of %r completed (%s) at %s but the task was never resumed" % (
                 tid, op, calls[-1][3], last_t), how=calls[-1][3])
           elif last_t + (op.get("delay") or 0) <= stop_time:
@@ -461,14 +465,17 @@ def check(case, log):
         script = list(op.get("script") or [{"v": "token"}])
         calls = [c for c in ix.rfs.get((tid, pc), []) if c[0] < wseq]
         outs = [c[3] for c in calls]
-        wantouts = ["abort"] * (len(script) - 1) if all(o == "abort" for o in script[:-1]) else None
+        wantouts = list(script[:-1]) if all(o in ("abort", "chain") for o in script[:-1]) else None
         lastspec = script[-1]
         if lastspec == "exc":
           want, lastout = {"exc": ["RfError", "rf:%s/%d" % (tid, pc)]}, "exc"
         else:
           v = lastspec.get("v") if isinstance(lastspec, dict) else None
           want, lastout = (["rf", tid, pc] if v == "token" else v), "value"
-        if wantouts is not None and outs != wantouts + [lastout]:
+        if "stale-phase" in outs:
+          fail("rf-replaced-function-ran-again", "%s: %r: a return function that had installed a different one (task.rf = ...; return ABORT) "
+               "was executed again on the next slice: outcomes %r, scripted %r" % (tid, op, outs, wantouts + [lastout]))
+        elif wantouts is not None and outs != wantouts + [lastout]:
           fail("rf-call-count", "%s: the return function of %r was called with outcomes %r, scripted %r" % (tid, op, outs, wantouts + [lastout]))
         elif val != want or type(val) != type(want):
           fail("rf-result-wrong", "%s: the return function of %r ended with %r but the task received %r" % (tid, op, want, val),
@@ -476,6 +483,9 @@ def check(case, log):
         d = op.get("delay") or 0
         if d and wtime < rtime + d * len(script):
           fail("resumed-early", "%s: %r requested at %s resumed at %s, before %s" % (tid, op, rtime, wtime, rtime + d * len(script)), op=kind)
+      elif kind == "badop":
+        fail("resumed-after-failed-operation", "%s yielded a blocking operation whose execute() raised (%s) at %s -- the scheduler reports it "
+             "as de-scheduled -- and was resumed at %s all the same" % (tid, op.get("how"), rtime, wtime), how=op.get("how"))
       elif kind == "acquire":
         if op.get("blocking", True) and val is not True:
           fail("acquire-value", "%s: blocking acquire returned %r" % (tid, val))
@@ -572,6 +582,11 @@ def _outstanding_op(ix, tid):
   if ix.resume(tid, last) is None:
     return rq[last][3]
   return None
+
+
+def _last_req(ix, tid):
+  rq = ix.reqs.get(tid)
+  return rq[max(rq)][3] if rq else None
 
 
 def _outstanding_pc(ix, tid):
@@ -674,7 +689,7 @@ def _check_idle(case, ix, fail, P, is_poisoned, timers):
       elif kind == "rfop":
         calls = [c for c in ix.rfs.get((tid, _pc_of(ix, tid, rseq)), []) if c[0] < q]
         base = calls[-1][2] if calls else rtime
-        if not calls or calls[-1][3] == "abort":
+        if not calls or calls[-1][3] in ("abort", "chain", "stale-phase"):
           if base + (op.get("delay") or 0) < b:
             why = "its next slice (%s)" % (base + (op.get("delay") or 0))
         else:
@@ -764,6 +779,8 @@ def raisers(log):
   for e in log:
     if e[0] == "end" and e[4] in ("raise", "uncaught") and "/" not in e[1]:
       out.append(e[1])
+    elif e[0] == "req" and e[5].get("op") == "badop" and "/" not in e[1] and e[1] not in out:
+      out.append(e[1])       # a blocking operation that raises in execute() ends the task as well
   return out
 
 
@@ -775,7 +792,7 @@ def twin(case, rs):
       continue
     prog = []
     for op in t.get("prog", []):
-      if op.get("op") == "raise":
+      if op.get("op") in ("raise", "badop"):
         prog.append({"op": "exit"})
       elif op.get("op") == "call" and op.get("catch", True) is False and "raise" in (op.get("sub", {}).get("ret") or "end"):
         op = dict(op)
@@ -912,6 +929,13 @@ def labels(case, log):
       L.add("raise:BaseException-kills-task")
     if e[0] == "fire" and e[4] in ("raise", "raise-base"):
       L.add("timer:callback-" + e[4])
+  for tid, rq in ix.reqs.items():
+    for step, (rseq, pc, rtime, op) in rq.items():
+      if op["op"] == "badop":
+        prev = rq.get(step - 1)
+        same_slice = prev is not None and prev[3]["op"] in ("acquire", "release") and not any(
+            e[0] == "cyc" for e in ix.log[prev[0]:rseq])
+        L.add("badop:" + str(op.get("how")) + (":after-slice-reclaiming-op" if same_slice else ""))
   partial = any(a not in ("eagain",) and a < off for (q, s, t, m, off, a) in ix.ssend if a != "eagain")
   if partial:
     L.add("send:partial")
